@@ -405,11 +405,13 @@ def r19_7(ctx):
     sep = f.node.args.args[1].arg if len(f.node.args.args) > 1 else "sep"
     adds = [n for n in ast.walk(f.node) if isinstance(n, ast.Call) and isinstance(n.func, ast.Attribute) and n.func.attr == "add" and n.args]
     construct = "extract_lhs_from_file/the name ends at the caller's separator (None = any whitespace)"
-    if not adds:
-        raise AnchorError("extract_lhs_from_file: no ret.add(..)")
-    t = expand_locals(f.node, adds[0].args[0])
-    (ctx.ok(construct, f.loc(adds[0])) if f".split({sep})[0]" in t else
-     ctx.bad(construct, f"the name is taken as `{t}`: with a fixed delimiter a TAB-separated rename line yields the whole line as the old name", f.loc(adds[0])))
+    # the element that enters the result set: `ret.add(e)` or the element of a returned set comprehension
+    elems = [a.args[0] for a in adds] + [n.elt for n in ast.walk(f.node) if isinstance(n, ast.SetComp)]
+    if not elems:
+        raise AnchorError("extract_lhs_from_file: neither ret.add(..) nor a set comprehension")
+    t = expand_locals(f.node, elems[0])
+    (ctx.ok(construct, f.loc(elems[0])) if f".split({sep})[0]" in t else
+     ctx.bad(construct, f"the name is taken as `{t}`: with a fixed delimiter a TAB-separated rename line yields the whole line as the old name", f.loc(elems[0])))
     p = repo.func(f"{MOD}:_prepare_deprecated_options")
     ctx.analysed(p.qual)
     asg = [n for n in ast.walk(p.node) if isinstance(n, ast.Assign) and ast.unparse(n.targets[0]) == "abs_idf_path"]
